@@ -16,12 +16,12 @@ CLAIMED = {
         technique="Lean 4 proof (classification table) + independent reference encoder + model/implementation correspondence"),
     "C14": dict(
         text="Executable Lean model of parse_rpu_file (chunk loop with carried tail, windows(4) start-code scan, per-chunk bail rules, final count check) compared with the real reader on generated files with chunk boundaries at every offset -4..+4 around start codes, exact multiples, corrupted entries, empty / start-code-less files; the expected list is computed from what was written (direct oracle). Lean theorems: a successful read is non-empty and complete by count, the empty file and a chunk without start code are errors.",
-        note="Trusted: Lean kernel, harness; regular-file reads are assumed full until EOF (hook chunk sizes >= 8192 keep that true); mid-file read errors are outside the quantifier. The unbounded round-trip theorem over all chunk sizes is stated in DESIGN.md, not yet proved.",
+        note="Trusted: Lean kernel, harness; regular-file reads are assumed full until EOF (hook chunk sizes >= 8192 keep that true); mid-file read errors are outside the quantifier. Proved (unbounded): C14.roundtrip (any number of entries, every chunk size above the first-read bound, otherwise an error), ok_is_whole_file_parse / ok_count_exact (every chunk size, any bytes: a successful read is the parse of every slice of the file), invalid_entry_is_error, chunk_size_independent, written_unmodified_rpus_roundtrip.",
         design="DESIGN.md section 7 C14",
         technique="Lean 4 model of the chunked reader + model/implementation correspondence at targeted chunk alignments + direct oracle"),
     "C15": dict(
         text="Lean 4 theorems about the model of the EMDF variable_bits codec and header (variable_bits_roundtrip for every n and every value up to the two-group maximum, size_field_roundtrip for every size <= 65791, the fixed header bits); the model's wrap is compared with the real convert_regular_rpu_to_av1_payload per size (digest), and the property is evaluated directly on the real code with a valid RPU of every payload size in the tier's set (all 24..65791 in the thorough tier), with/without 0xB5, with trailing zeros.",
-        note="Trusted: Lean kernel; correspondence harness; valid sized RPUs are built by padding the data before the CRC32.",
+        note="Trusted: Lean kernel; correspondence harness; valid sized RPUs are built by padding the data before the CRC32. Proved (unbounded): av1_roundtrip / av1_roundtrip_complete for every payload size up to 65791 (incl. 256), wrap_never_fails, wrap_rejects_larger, av1_header_fixed, av1_size_exact, obu_roundtrip.",
         design="DESIGN.md section 7 C15",
         technique="Lean 4 proof (arithmetic of the two-group code) + per-size model/implementation digest + exhaustive direct oracle"),
     "C03": dict(
@@ -31,7 +31,7 @@ CLAIMED = {
         technique="Lean 4 proof over the writer model + model/implementation correspondence on operation sequences + re-parse oracle"),
     "C04": dict(
         text="Every mode 0..5 (and out-of-range integers) on every structured/sample RPU, once and twice, through the library and the CLI editor surface: documented target profile/EL/mapping from the re-parsed output, DM payload equality, encodes and re-parses, idempotence, surface equality; the Lean conversion model is compared with the real one on every case. Lean theorems: the raw-integer and CLI mode maps agree, out-of-range is lossless, unsupported sources are errors, mode 4 target, set_p81_coeffs keeps the DM payload, mode 0 leaves the structure.",
-        note="Trusted: Lean kernel, harness. Known findings F8, F12, F13 matched by shape. Stream-level surfaces (-m, --edit-config) are compared with the library conversion in C05-C07.",
+        note="Trusted: Lean kernel, harness. Known findings F8, F12, F13 matched by shape. Proved for every RPU value: convert_succeeds_iff / convert_error_iff / convert_never_panics, convert_dm_exact / convert_dm_unchanged, convert_idempotent_iff (F8 stated as mode1_p8_not_idempotent), convert_table and the per-mode tables. Stream-level surfaces (-m, --edit-config) are compared with the library conversion in C05-C07.",
         design="DESIGN.md section 7 C04",
         technique="Lean 4 proof (decision tables of the conversion model) + model/implementation correspondence + table oracle"),
     "C09": dict(
@@ -56,7 +56,7 @@ CLAIMED = {
         technique="Lean 4 + Mathlib proof over the reals + kernel-checked certificate tables + exhaustive f64 correspondence"),
     "C12": dict(
         text="Lean theorems about the container model (count equals number of blocks after every touching operation, sorting only permutes, add/remove keep the level invariant, absent container is a no-op or an error); the model's result after every operation of random sequences is compared with the real code's JSON, and the invariants (level routing, count, sortedness of the touched container, keyed upsert) are checked on the real code's JSON after every operation.",
-        note="Trusted: Lean kernel, harness. Operations are applied through the public Rust API in-process.",
+        note="Trusted: Lean kernel, harness. Operations are applied through the public Rust API in-process. Proved: sortBlocks_sorted / sortBlocks_perm, replaceKeyed_upsert, ops_preserve_inv and ops_keep_presence over arbitrary operation sequences.",
         design="DESIGN.md section 7 C12",
         technique="Lean 4 proof (invariants of the container model) + per-operation model/implementation correspondence + invariant oracle"),
     "C16": dict(
@@ -66,7 +66,7 @@ CLAIMED = {
         technique="Lean 4 proof over the export model + CLI/model correspondence + direct oracles (replay through the editor)"),
     "C17": dict(
         text="Lean theorems: inserting map entries with different keys commutes, hence the key-ordered map (and with it the scene-cut and active-area passes of the editor model) is the same for every permutation of the config's entries (asMap_perm, sceneCuts_order_independent, activeArea_order_independent). Runtime part: every command is executed in 8/16 fresh processes with varied HOME, locale, cwd, RUST_BACKTRACE, font configuration, time zone; output hashes and exit status must coincide.",
-        note="Partial: process-level nondeterminism (hash seeds, environment) is sampled by repeated execution, not proved; plot contributes its exit status only.",
+        note="Partial: process-level nondeterminism (hash seeds, environment, pre-existing output files) is sampled by repeated execution, not proved; the logic part is proved (asMap_perm, sceneCuts/activeArea order independence, sortBlocks_order_independent); plot contributes its exit status only.",
         design="DESIGN.md section 7 C17",
         technique="Lean 4 proof (permutation invariance of the editor model) + repeated fresh-process execution"),
     "C05": dict(
@@ -96,7 +96,7 @@ CLAIMED = {
         technique="Lean 4 proof over the view/ownership model + model/C-API correspondence + Rust-vs-C oracle + valgrind"),
     "C08": dict(
         text="Every parsing entry point (raw RPU, UNSPEC62 NAL, AV1 T.35 OBU, ST 2094-10 SEI, RPU .bin file, C API wrappers) is run on mutated, truncated, extreme-valued and random inputs under an address-space limit and time limits; the outcome class must be ok|err and must equal the class predicted by the executable Lean model (which marks third-party panic sites explicitly) for the modelled entry points; Lean theorems state the guards of the model (short buffers are errors, bit reader never panics).",
-        note="Partial: time and memory are runtime facts observed under limits, not proved; ST 2094-10 and the file reader are exercised by direct oracle only; third-party exp-Golomb panics are known findings matched by panic site.",
+        note="Partial: time and memory are runtime facts observed under limits, not proved; ST 2094-10 (Model/St2094.lean) and the RPU file reader are modelled and compared by outcome class; no-panic theorems cover the RPU, NAL, AV1, ST 2094-10 and file entry points; third-party exp-Golomb panics are known findings matched by panic site.",
         design="DESIGN.md section 7 C08",
         technique="Lean 4 model with explicit panic outcome + class correspondence + direct oracle under rlimits"),
     "C13": dict(
